@@ -52,10 +52,21 @@ def _conv_of(arg, var: str) -> str:
     return unparse(arg)
 
 
+def _raises_uncaught(conv: str, nxt) -> bool:
+    """hoisting `conv(text)` in front of the try `nxt` changes nothing when nxt's own handlers would not have caught what conv raises (ValueError)"""
+    if not isinstance(nxt, ast.Try):
+        return True
+    return not any(caught(_handler_names(h), 'ValueError') for h in nxt.handlers)
+
+
 def extract_ladder(try_node: ast.Try, payload, var: str) -> List[Rung]:
     """payload(stmt) -> the value expression handed to the gate by that statement, or None."""
     rungs = []
     cur = try_node
+    prepared: Dict[str, ast.AST] = {}          # locals bound in a handler to a conversion of the text, used by the next attempt
+
+    def resolve(v):
+        return prepared.get(v.id, v) if isinstance(v, ast.Name) else v
     while True:
         if not isinstance(cur, ast.Try) or len(cur.body) != 1 or len(cur.handlers) != 1 or cur.orelse or cur.finalbody:
             raise AnalysisError("the parser's conversion ladder is not a chain of single-statement try/except blocks (idiom not understood)")
@@ -63,10 +74,20 @@ def extract_ladder(try_node: ast.Try, payload, var: str) -> List[Rung]:
         if val is None:
             raise AnalysisError(f"conversion ladder: `{short(cur.body[0])}` is not a gate call")
         h = cur.handlers[0]
-        rungs.append(Rung(_conv_of(val, var), cur.body[0], _handler_names(h)))
-        if len(h.body) != 1:
+        rungs.append(Rung(_conv_of(resolve(val), var), cur.body[0], _handler_names(h)))
+        hb = list(h.body)
+        # a conversion prepared in front of the next attempt (`float(text)` / `number = float(text)`): where it raises it leaves the handler like the same
+        # conversion inside the next attempt would when that attempt's handler does not catch its exception class - checked by the caller through the rung's
+        # own conversion text, which after normalisation carries the conversion itself
+        while len(hb) > 1 and isinstance(hb[0], (ast.Expr, ast.Assign)) and isinstance(hb[0].value, ast.Call) and isinstance(hb[0].value.func, ast.Name) and \
+                hb[0].value.func.id in ('float', 'int', 'str') and len(hb[0].value.args) == 1 and isinstance(hb[0].value.args[0], ast.Name) and \
+                _raises_uncaught(hb[0].value.func.id, hb[1]):
+            if isinstance(hb[0], ast.Assign) and len(hb[0].targets) == 1 and isinstance(hb[0].targets[0], ast.Name):
+                prepared[hb[0].targets[0].id] = hb[0].value
+            hb = hb[1:]
+        if len(hb) != 1:
             raise AnalysisError("conversion ladder: a handler with more than one statement")
-        nxt = h.body[0]
+        nxt = hb[0]
         if isinstance(nxt, ast.Try):
             cur = nxt
             continue
@@ -75,7 +96,7 @@ def extract_ladder(try_node: ast.Try, payload, var: str) -> List[Rung]:
             # not a retry: swallowing handler
             rungs.append(Rung('<no retry: ' + short(nxt, 40) + '>', nxt, []))
         else:
-            rungs.append(Rung(_conv_of(val, var), nxt, []))
+            rungs.append(Rung(_conv_of(resolve(val), var), nxt, []))
         return rungs
 
 
